@@ -97,7 +97,9 @@ class Layout:
         """Something legal between two tokens of one statement."""
         if self.block_comment_left and self.chance(0.05):
             self.block_comment_left -= 1
-            return " /* " + self.pick(["k", "a\nb", "; } >", "//"]) + " */ "
+            # (the usual spelling, banner styles with several stars, the empty comment)
+            op, cl = self.pick([("/* ", " */"), ("/* ", " */"), ("/** ", " **/"), ("/* ", " ****/"), ("/*** ", " ***/"), ("/*", "*/"), ("/** ", " */")])
+            return " " + op + self.pick(["k", "a\nb", "; } >", "//", "*", "* x *", ""]) + cl + " "
         return self.ws()
 
 
